@@ -24,7 +24,13 @@ Verdict(rec) ==
       W   == rec.inW
       flat == rec.mode \in {"min", "full"}
   IN
-  /\ (W => V(tid, "C04", ok))
+  \* C04: Flatten returns nil AND the result satisfies C01 - C03 (each where it applies)
+  /\ (W => LET r1 == ok => C01(b0, b1, rec.ru)
+               r2 == (ok /\ flat) => C02(doc, xk)
+               r3 == (ok /\ rec.mode = "full") => C03(b0, doc, xk, rec.fold)
+           IN /\ V(tid, "C04", ok /\ r1 /\ r2 /\ r3)
+              /\ ((ok /\ ~(r1 /\ r2 /\ r3)) =>
+                    Out(<<"DIAG", tid, "C04", "result-" \o (IF ~r1 THEN "c01" ELSE IF ~r2 THEN "c02" ELSE "c03") \o "." \o rec.mode, <<>> >>)))
   /\ ((W /\ ~ok) => Out(<<"DIAG", tid, "C04", "error." \o rec.mode, <<rec.err>>>>))
   /\ ((W /\ ok) =>
         /\ V(tid, "C01", C01(b0, b1, rec.ru))
